@@ -6,21 +6,54 @@ import IbModel.Proofs.Assertions
 Property theorems (helper lemmas live in `Proofs/Assertions.lean`). `true` = the assertion returns,
 `false` = it panics. Multiset equality of lists is `List.Perm`. Assumption throughout: `==` on
 elements, keys and values is a lawful (reflexive) equality — `DecidableEq`; Rust only demands
-`PartialEq` for some of them, and with `f64::NAN` a collection is rejected against itself.
+`PartialEq` for some of them, and with `f64::NAN` a collection is rejected against itself. `Debug` and
+`Hash` do not exist in the model: every theorem holds for any `Debug` output and any hasher (the
+harness instantiates the assertions with a type whose `Debug` is lossy and whose `Hash` collides).
 
 * ordered      `assertEqual_iff`        : passes ↔ `a = b`                                (all inputs)
+* ordered, on the records of a file (`assert_jsonl_equals`, `assert_csv_equals`; the line parsers are
+  parameters, their laws hypotheses):
+               `assertJsonl_eq`, `assertCsv_eq`   : the file assertion IS `assertEqual ∘ read` (reader error = panic)
+               `assertJsonl_iff`, `assertCsv_iff` : passes ↔ the file opens, every (non-blank / data) line
+                                          parses and the records, in file order, are `expected` (all inputs)
+               `assertJsonl_mock_iff`, `assertCsv_mock_iff` : a file written record by record (`parse ∘ ser
+                                          = some`) passes ↔ `data = expected`;  `jline_lawful`, `cline_lawful`
+               `assert*_rejects_length` (proper prefix / extension), `assertJsonl_bad_line`, `assert*_missing`
 * unordered    `assertUnordered_iff`    : passes ↔ `a.Perm b`                             (all inputs)
+               `firstCountMismatch_none_iff`, `firstCountMismatch_some`: the `HashMap` counter, transliterated
 * key/value    `assertKv_iff`           : passes ↔ `a.Perm b`     (all inputs, repeated keys included;
                                           any total, transitive, antisymmetric key order)
-* grouped      `assertGrouped_iff_groups`: passes ↔ `GroupsEquiv a b` — equal as multisets of groups
-                                          (key, multiset of values)  (all inputs, repeated keys included)
-               `assertGrouped_iff`      : passes ↔ same keys ∧ per key the same multiset of values
-                                          (grouped data = keys pairwise distinct on a side)
+* grouped      `assertGrouped_iff`      : **the property's claim** — for grouped data (keys pairwise distinct on
+                                          a side): passes ↔ same keys ∧ per key the same multiset of values
+               `assertGrouped_iff_groups`: what the code decides on ALL inputs: passes ↔ `GroupsEquiv a b` —
+                                          equal as multisets of groups (key, multiset of values)
                `assertGrouped_flatten`, `assertGrouped_rejects_group_multiplicity`, legacy witnesses.
 * maps         `assertMaps_iff`         : passes ↔ same entries; `assertMaps_mkMap_iff` for insert sequences
 * size / contains / all / any / none    : `assertSize_iff`, `assertContains_iff`, `assertAll_iff`,
                                           `assertAny_iff`, `assertNone_iff`, `assert_pred_perm`
-* the driver's key order                : `leInt_order`, `assertKv_leInt_iff`, `assertGrouped_leInt_iff`
+* the driver's key orders               : `leInt_order`, `lePair_order`, `leStr_order`, `assertKv_le*_iff`,
+                                          `assertGrouped_le*_iff`, `embP_injective`, `embP_mono`
+
+## Grouped inputs in which one key occurs in several rows — the reading that is enforced (decision)
+
+The property text reads "for grouped data: the same keys and, per key, the same multiset of values".
+*Grouped data* is what `group_by_key` yields: ONE row per key. For such inputs (both sides) the text is
+unambiguous, `assertGrouped_iff` proves it for the model, and the harness ORACLE demands it of the real
+code (pass ⇔ same keys ∧ per key multiset-equal values).
+
+For inputs in which a key occurs in several rows of a side the text does not determine the answer: read
+as "multiset of groups" it rejects `[(0,[1,2]),(0,[])]` vs `[(0,[1]),(0,[2])]` (what the code does,
+`assertGrouped_rejects_regrouped`), read as "union of the values per key" it accepts that pair. Such
+inputs are NOT grouped data; they are OUTSIDE the property's iff. Consequently
+  * the oracle gives no verdict on them (it would otherwise demand more than the property states, and
+    would flag either repair as a defect);
+  * the theorems about them stay: they are true statements about the code (`assertGrouped_iff_groups`:
+    the code decides equality as multisets of groups; `assertGrouped_flatten`: it never accepts two
+    inputs whose flattened `(key, value)` rows differ in multiplicity; `assertGrouped_rejects_regrouped`);
+  * the real answers on such inputs are still compared with the model's, case by case (model
+    correspondence): a behavioural change there is reported as a model/implementation disagreement,
+    not as an oracle failure. The repair of defect #24 (`[(0,[1]),(0,[2])]` vs `[(0,[2]),(0,[1])]`
+    panicked) is kept: both readings accept that pair.
 -/
 namespace IB.Assertions
 
@@ -77,6 +110,7 @@ theorem assertEqual_iff (a b : List α) : assertEqual a b = true ↔ a = b := by
     collections are equal as multisets. -/
 theorem assertUnordered_iff (a b : List α) : assertUnordered a b = true ↔ a.Perm b := by
   unfold assertUnordered
+  rw [firstCountMismatch_isNone]
   constructor
   · intro h
     simp only [Bool.and_eq_true] at h
@@ -85,6 +119,22 @@ theorem assertUnordered_iff (a b : List α) : assertUnordered a b = true ↔ a.P
     simp only [Bool.and_eq_true, beq_iff_eq]
     exact ⟨⟨h.length_eq, setEq_of_perm h⟩, (countsEq_iff a b).mpr (List.perm_iff_count.mp h)⟩
 
+/-- the `HashMap` counter of `first_count_mismatch` reports nothing **iff** every element occurs
+    equally often on both sides (no assumption on the hasher: the map is only ever queried by key) -/
+theorem firstCountMismatch_none_iff (a b : List α) :
+    firstCountMismatch a b = none ↔ ∀ x, a.count x = b.count x := by
+  rw [← Option.isNone_iff_eq_none, firstCountMismatch_isNone, countsEq_iff]
+
+/-- … and an element it reports does occur a different number of times -/
+theorem firstCountMismatch_some (a b : List α) (x : α) (h : firstCountMismatch a b = some x) :
+    a.count x ≠ b.count x := by
+  unfold firstCountMismatch at h
+  have hp := List.find?_some h
+  rw [countTable_lookup] at hp
+  by_cases h0 : a.count x + b.count x = 0
+  · simp [h0] at hp
+  · simp only [h0, if_false] at hp
+    simpa using hp
 /-- In particular it never accepts collections that differ only in multiplicities. -/
 theorem assertUnordered_rejects_multiplicity (a b : List α) (x : α) (h : a.count x ≠ b.count x) :
     assertUnordered a b = false := by
@@ -617,6 +667,245 @@ theorem assertKv_leInt_iff (a b : List (Int × α)) : assertKv leInt a b = true 
 theorem assertGrouped_leInt_iff (a b : List (Int × List α)) :
     assertGrouped leInt a b = true ↔ GroupsEquiv a b :=
   assertGrouped_iff_groups leInt leInt_order.1 leInt_order.2.1 leInt_order.2.2 a b
+
+/-! ## the other element / key types the driver evaluates (`struct P(i64, i64)`, `String`) -/
+
+/-- derived `Ord` of `P` (lexicographic on `Int × Int`) is a total order -/
+theorem lePair_order :
+    (∀ a b c, lePair a b → lePair b c → lePair a c) ∧ (∀ a b, lePair a b || lePair b a) ∧
+      (∀ a b, lePair a b → lePair b a → a = b) := by
+  refine ⟨?_, ?_, ?_⟩
+  · rintro ⟨a1, a2⟩ ⟨b1, b2⟩ ⟨c1, c2⟩ h1 h2
+    simp only [lePair, decide_eq_true_eq] at *; omega
+  · rintro ⟨a1, a2⟩ ⟨b1, b2⟩
+    simp only [lePair, Bool.or_eq_true, decide_eq_true_eq]; omega
+  · rintro ⟨a1, a2⟩ ⟨b1, b2⟩ h1 h2
+    simp only [lePair, decide_eq_true_eq] at *
+    have : a1 = b1 ∧ a2 = b2 := by omega
+    rw [this.1, this.2]
+
+/-- `Ord` of `String` is a total order -/
+theorem leStr_order :
+    (∀ a b c, leStr a b → leStr b c → leStr a c) ∧ (∀ a b, leStr a b || leStr b a) ∧
+      (∀ a b, leStr a b → leStr b a → a = b) := by
+  refine ⟨?_, ?_, ?_⟩
+  · intro a b c h1 h2; simp only [leStr, decide_eq_true_eq] at *; exact String.le_trans h1 h2
+  · intro a b; simp only [leStr, Bool.or_eq_true, decide_eq_true_eq]; exact String.le_total a b
+  · intro a b h1 h2; simp only [leStr, decide_eq_true_eq] at *; exact String.le_antisymm h1 h2
+
+/-- the embedding of the request's integers into `P` is injective and monotone (so the harness may
+    compute its reference verdicts on the integers) -/
+theorem embP_injective (x y : Int) (h : embP x = embP y) : x = y := by
+  simp only [embP, Prod.mk.injEq] at h; omega
+
+theorem embP_mono (x y : Int) : lePair (embP x) (embP y) = leInt x y := by
+  simp only [lePair, embP, leInt]
+  apply decide_eq_decide.mpr
+  omega
+
+theorem assertKv_lePair_iff (a b : List ((Int × Int) × α)) : assertKv lePair a b = true ↔ a.Perm b :=
+  assertKv_iff lePair lePair_order.1 lePair_order.2.1 lePair_order.2.2 a b
+
+theorem assertKv_leStr_iff (a b : List (String × α)) : assertKv leStr a b = true ↔ a.Perm b :=
+  assertKv_iff leStr leStr_order.1 leStr_order.2.1 leStr_order.2.2 a b
+
+theorem assertGrouped_lePair_iff (a b : List ((Int × Int) × List α)) :
+    assertGrouped lePair a b = true ↔ GroupsEquiv a b :=
+  assertGrouped_iff_groups lePair lePair_order.1 lePair_order.2.1 lePair_order.2.2 a b
+
+theorem assertGrouped_leStr_iff (a b : List (String × List α)) :
+    assertGrouped leStr a b = true ↔ GroupsEquiv a b :=
+  assertGrouped_iff_groups leStr leStr_order.1 leStr_order.2.1 leStr_order.2.2 a b
+
+/-! ## the file assertions (`assert_jsonl_equals`, `assert_csv_equals`; `src/testing/mock_io.rs`) -/
+
+section files
+variable {L : Type}
+
+/-- `assert_jsonl_equals` IS the ordered assertion applied to what `read_jsonl_output` returns
+    (a reader error panics) -/
+theorem assertJsonl_eq (isBlank : L → Bool) (parse : L → Option α) (file : Option (List L))
+    (expected : List α) :
+    assertJsonl isBlank parse file expected =
+      match file.bind (readJsonl isBlank parse) with
+      | none => false
+      | some actual => assertEqual actual expected := by
+  unfold assertJsonl assertEqual; rfl
+
+/-- **C20 (ordered, JSONL file)**: `assert_jsonl_equals` returns **iff** the file can be opened, every
+    non-blank line parses, and the parsed records — in file order — are exactly `expected`. -/
+theorem assertJsonl_iff (isBlank : L → Bool) (parse : L → Option α) (file : Option (List L))
+    (expected : List α) :
+    assertJsonl isBlank parse file expected = true ↔
+      ∃ lines, file = some lines ∧
+        (lines.filter (fun l => !isBlank l)).map parse = expected.map some := by
+  rw [assertJsonl_eq]
+  cases file with
+  | none => simp
+  | some lines =>
+    simp only [Option.bind_some, Option.some.injEq, exists_eq_left']
+    rw [← parseAll_eq_some_iff, ← readJsonl_eq_parseAll_filter]
+    cases h : readJsonl isBlank parse lines with
+    | none => simp
+    | some actual => simp [assertEqual_iff]
+
+/-- what `mock_jsonl_file(data)` writes (one line per record, `parse ∘ ser = some`, no record
+    serialises to a blank line), possibly interleaved with blank lines, is accepted iff `data = expected` -/
+theorem assertJsonl_mock_iff (isBlank : L → Bool) (parse : L → Option α) (ser : α → L)
+    (hb : ∀ x, isBlank (ser x) = false) (hp : ∀ x, parse (ser x) = some x) (data expected : List α) :
+    assertJsonl isBlank parse (some (data.map ser)) expected = true ↔ data = expected := by
+  rw [assertJsonl_iff]
+  simp only [Option.some.injEq, exists_eq_left']
+  have hf : (data.map ser).filter (fun l => !isBlank l) = data.map ser := by
+    apply List.filter_eq_self.mpr
+    intro l hl
+    obtain ⟨x, _, rfl⟩ := List.mem_map.mp hl
+    simp [hb]
+  rw [hf, ← parseAll_eq_some_iff, parseAll_map_ser parse ser hp]
+  simp
+
+/-- a file that cannot be opened is rejected -/
+theorem assertJsonl_missing (isBlank : L → Bool) (parse : L → Option α) (expected : List α) :
+    assertJsonl isBlank parse none expected = false := rfl
+
+/-- a non-blank line that does not parse makes the assertion panic, whatever `expected` is -/
+theorem assertJsonl_bad_line (isBlank : L → Bool) (parse : L → Option α) (lines : List L)
+    (expected : List α) (l : L) (hl : l ∈ lines) (hb : isBlank l = false) (hp : parse l = none) :
+    assertJsonl isBlank parse (some lines) expected = false := by
+  cases h : assertJsonl isBlank parse (some lines) expected with
+  | false => rfl
+  | true =>
+    obtain ⟨ls, hls, hm⟩ := (assertJsonl_iff isBlank parse _ expected).mp h
+    cases hls
+    have : parse l ∈ (lines.filter (fun l => !isBlank l)).map parse :=
+      List.mem_map.mpr ⟨l, List.mem_filter.mpr ⟨hl, by simp [hb]⟩, rfl⟩
+    rw [hm, hp] at this
+    simp at this
+
+/-- In particular a file holding a different NUMBER of records is rejected: a proper prefix of
+    `expected`, or `expected` followed by further records, never passes (the length check cannot be
+    left to `zip`, which stops at the shorter side). -/
+theorem assertJsonl_rejects_length (isBlank : L → Bool) (parse : L → Option α) (lines : List L)
+    (actual expected : List α) (hr : readJsonl isBlank parse lines = some actual)
+    (hlen : actual.length ≠ expected.length) :
+    assertJsonl isBlank parse (some lines) expected = false := by
+  rw [assertJsonl_eq]
+  simp only [Option.bind_some, hr]
+  cases h : assertEqual actual expected with
+  | false => rfl
+  | true => exact absurd (congrArg List.length ((assertEqual_iff _ _).mp h)) hlen
+
+/-- `assert_csv_equals` IS the ordered assertion applied to what `read_csv_output` returns
+    (a reader error panics) -/
+theorem assertCsv_eq (isEmpty : L → Bool) (parse : L → L → Option α) (file : Option (List L))
+    (expected : List α) :
+    assertCsv isEmpty parse file expected =
+      match file.bind (readCsv isEmpty parse) with
+      | none => false
+      | some actual => assertEqual actual expected := by
+  unfold assertCsv assertEqual; rfl
+
+/-- **C20 (ordered, CSV file)**: `assert_csv_equals` returns **iff** the file can be opened and either
+    it has no non-empty line and `expected` is empty, or its first non-empty line is taken as the header
+    row and every further non-empty line deserialises against it, to exactly `expected`, in file order. -/
+theorem assertCsv_iff (isEmpty : L → Bool) (parse : L → L → Option α) (file : Option (List L))
+    (expected : List α) :
+    assertCsv isEmpty parse file expected = true ↔
+      ∃ lines, file = some lines ∧
+        ((lines.filter (fun l => !isEmpty l) = [] ∧ expected = []) ∨
+         ∃ hdr rows, lines.filter (fun l => !isEmpty l) = hdr :: rows ∧
+           rows.map (parse hdr) = expected.map some) := by
+  rw [assertCsv_eq]
+  cases file with
+  | none => simp
+  | some lines =>
+    simp only [Option.bind_some, Option.some.injEq, exists_eq_left', readCsv]
+    cases hf : lines.filter (fun l => !isEmpty l) with
+    | nil =>
+      simp only [assertEqual_iff, true_and, reduceCtorEq, false_and, exists_false, or_false]
+      exact eq_comm
+    | cons hdr rows =>
+      simp only [reduceCtorEq, false_and, List.cons.injEq, false_or]
+      cases h : parseAll (parse hdr) rows with
+      | none =>
+        simp only [Bool.false_eq_true, false_iff, not_exists, not_and]
+        rintro h' r' ⟨rfl, rfl⟩ hm
+        rw [← parseAll_eq_some_iff, h] at hm
+        cases hm
+      | some actual =>
+        simp only [assertEqual_iff]
+        constructor
+        · rintro rfl; exact ⟨hdr, rows, ⟨rfl, rfl⟩, (parseAll_eq_some_iff _ _ _).mp h⟩
+        · rintro ⟨h', r', ⟨rfl, rfl⟩, hm⟩
+          rw [← parseAll_eq_some_iff, h] at hm
+          exact Option.some.inj hm
+
+/-- what `mock_csv_file(data, _)` writes — a header row, then one line per record, none of them
+    empty, `parse hdr ∘ ser = some` — is accepted iff `data = expected` -/
+theorem assertCsv_mock_iff (isEmpty : L → Bool) (parse : L → L → Option α) (hdr : L) (ser : α → L)
+    (hh : isEmpty hdr = false) (hb : ∀ x, isEmpty (ser x) = false)
+    (hp : ∀ x, parse hdr (ser x) = some x) (data expected : List α) :
+    assertCsv isEmpty parse (some (hdr :: data.map ser)) expected = true ↔ data = expected := by
+  rw [assertCsv_eq]
+  have hf : (hdr :: data.map ser).filter (fun l => !isEmpty l) = hdr :: data.map ser := by
+    apply List.filter_eq_self.mpr
+    intro l hl
+    rcases List.mem_cons.mp hl with rfl | hl
+    · simp [hh]
+    · obtain ⟨x, _, rfl⟩ := List.mem_map.mp hl
+      simp [hb]
+  simp only [Option.bind_some, readCsv, hf, parseAll_map_ser (parse hdr) ser hp, assertEqual_iff]
+
+theorem assertCsv_missing (isEmpty : L → Bool) (parse : L → L → Option α) (expected : List α) :
+    assertCsv isEmpty parse none expected = false := rfl
+
+/-- a different NUMBER of records is rejected (cf. `assertJsonl_rejects_length`) -/
+theorem assertCsv_rejects_length (isEmpty : L → Bool) (parse : L → L → Option α) (lines : List L)
+    (actual expected : List α) (hr : readCsv isEmpty parse lines = some actual)
+    (hlen : actual.length ≠ expected.length) :
+    assertCsv isEmpty parse (some lines) expected = false := by
+  rw [assertCsv_eq]
+  simp only [Option.bind_some, hr]
+  cases h : assertEqual actual expected with
+  | false => rfl
+  | true => exact absurd (congrArg List.length ((assertEqual_iff _ _).mp h)) hlen
+
+/-- the line classes of the driver satisfy the hypotheses of the two `mock` theorems -/
+theorem jline_lawful :
+    (∀ x : Int × Int, JLine.isBlank (JLine.record x.1 x.2) = false) ∧
+      (∀ x : Int × Int, JLine.parse (JLine.record x.1 x.2) = some x) := ⟨fun _ => rfl, fun _ => rfl⟩
+
+theorem cline_lawful :
+    CLine.isEmpty CLine.hdr = false ∧ (∀ x : Int × Int, CLine.isEmpty (CLine.row x.1 x.2) = false) ∧
+      (∀ x : Int × Int, CLine.parse CLine.hdr (CLine.row x.1 x.2) = some x) ∧
+      (∀ x : Int × Int, CLine.parse CLine.hdrSwapped (CLine.row x.2 x.1) = some x) :=
+  ⟨rfl, fun _ => rfl, fun _ => rfl, fun _ => rfl⟩
+
+/-- witnesses (JSONL): equal file, blank lines ignored; proper prefix, extension, one record changed,
+    a bad line, the empty file against a non-empty expectation — all rejected -/
+theorem assertJsonl_witnesses :
+    let A := assertJsonl JLine.isBlank JLine.parse
+    A (some [.record 1 2, .blank, .record 3 4]) [(1, 2), (3, 4)] = true ∧
+    A (some [.record 1 2]) [(1, 2), (3, 4)] = false ∧
+    A (some [.record 1 2, .record 3 4, .record 5 6]) [(1, 2), (3, 4)] = false ∧
+    A (some [.record 1 2, .record 3 5]) [(1, 2), (3, 4)] = false ∧
+    A (some [.record 1 2, .bad, .record 3 4]) [(1, 2), (3, 4)] = false ∧
+    A (some []) [(1, 2)] = false ∧ A (some [.blank]) [] = true ∧ A none [] = false := by
+  decide
+
+theorem assertCsv_witnesses :
+    let A := assertCsv CLine.isEmpty CLine.parse
+    A (some [.hdr, .row 1 2, .empty, .row 3 4]) [(1, 2), (3, 4)] = true ∧
+    A (some [.hdrSwapped, .row 2 1, .row 4 3]) [(1, 2), (3, 4)] = true ∧
+    A (some [.hdr, .row 1 2]) [(1, 2), (3, 4)] = false ∧
+    A (some [.hdr, .row 1 2, .row 3 4, .row 5 6]) [(1, 2), (3, 4)] = false ∧
+    A (some [.hdr, .row 1 2, .row 3 5]) [(1, 2), (3, 4)] = false ∧
+    A (some [.hdr, .row 1 2, .bad]) [(1, 2)] = false ∧
+    A (some [.row 1 2, .row 3 4]) [(1, 2), (3, 4)] = false ∧
+    A (some [.row 1 2]) [] = true ∧
+    A (some []) [] = true ∧ A (some [.hdr]) [(1, 2)] = false ∧ A none [] = false := by
+  decide
+end files
 
 /-! ## non-vacuity: concrete non-trivial inputs satisfy the hypotheses and both sides of the iffs -/
 
